@@ -52,7 +52,7 @@ func checkC19(c *Check) {
 		var pred *ssa.BasicBlock
 		edge := -1
 		for i, e := range d.Phi.Edges {
-			switch v := e.(type) {
+			switch v := strip(e).(type) {
 			case *ssa.Function:
 				if unwrapBound(v) == row.Fn && !row.Inner {
 					pred = phiBlock.Preds[i]
